@@ -23,6 +23,10 @@ func (c *fctx) lvalue(e ast.Expr) lval {
 	switch t := e.(type) {
 	case *ast.ParenExpr:
 		return c.lvalue(t.X)
+	case *ast.StarExpr: // *p = v with p a (non-nil) pointer parameter: the updated record is returned to the caller
+		if id, ok := t.X.(*ast.Ident); ok && c.x.kindOf(c.typeOf(id)) == kPtrStruct && !c.isOptVar(id) {
+			return c.lvalue(id)
+		}
 	case *ast.Ident:
 		v, ok := c.info.ObjectOf(t).(*types.Var)
 		if !ok || v.Parent() == v.Pkg().Scope() {
@@ -260,6 +264,9 @@ func (c *fctx) writtenRoots(n ast.Node) []*types.Var {
 			case *ast.ParenExpr:
 				e = t.X
 				continue
+			case *ast.StarExpr:
+				e = t.X
+				continue
 			}
 			break
 		}
@@ -374,6 +381,9 @@ func (c *fctx) stmt(o *out, ind int, s ast.Stmt) {
 		c.assignTo(o, ind, t.X, fmt.Sprintf("(%s %s %s)", c.expr(t.X), op, c.one(c.typeOf(t.X))))
 	case *ast.DeclStmt:
 		gd := t.Decl.(*ast.GenDecl)
+		if gd.Tok == token.CONST {
+			return // constants are folded where they are used
+		}
 		if gd.Tok != token.VAR {
 			bad("declaration at %s", c.site(s.Pos()))
 		}
@@ -558,6 +568,8 @@ func (c *fctx) ret(o *out, ind int, t *ast.ReturnStmt) {
 			if c.x.kindOf(rt) == kPtrStruct {
 				if isNil(r) {
 					vals = append(vals, "none")
+				} else if id, ok := r.(*ast.Ident); ok && c.isOptVar(id) {
+					vals = append(vals, c.expr(r))
 				} else {
 					vals = append(vals, "(some "+c.expr(r)+")")
 				}
